@@ -26,6 +26,9 @@ pub enum WOp {
     FlushDefer,
     Check,
     Drop,
+    /// The writer goes out of scope while the thread unwinds from an unrelated panic (never
+    /// generated for sinks that may panic themselves: that would be a double panic).
+    DropUnwinding,
 }
 
 #[derive(Clone, Debug)]
@@ -38,6 +41,9 @@ pub struct WriterCase {
     pub sink: SinkCfg,
     pub ops: Vec<WOp>,
 }
+
+/// Payload of the unrelated panic of `WOp::DropUnwinding`.
+struct UnrelatedPanic;
 
 pub struct WriterProp {
     pub c14: bool,
@@ -433,7 +439,11 @@ fn gen_case(rng: &mut Rng, c14: bool) -> WriterCase {
     if rng.chance(1, 3) {
         let at = rng.below(ops.len() + 1);
         ops.truncate(at);
-        ops.push(WOp::Drop);
+        ops.push(if class <= 2 && rng.chance(1, 3) {
+            WOp::DropUnwinding
+        } else {
+            WOp::Drop
+        });
     }
     WriterCase {
         cap,
@@ -464,6 +474,7 @@ fn op_name(op: &WOp) -> String {
         WOp::FlushDefer => "flush_defer_err()".into(),
         WOp::Check => "check_io_error()".into(),
         WOp::Drop => "drop".into(),
+        WOp::DropUnwinding => "drop while unwinding from an unrelated panic".into(),
     }
 }
 
@@ -479,6 +490,7 @@ fn op_enc(op: &WOp) -> String {
         WOp::FlushDefer => "f".into(),
         WOp::Check => "c".into(),
         WOp::Drop => "X".into(),
+        WOp::DropUnwinding => "U".into(),
     }
 }
 
@@ -499,6 +511,7 @@ fn op_dec(s: &str) -> Option<WOp> {
         "f" => WOp::FlushDefer,
         "c" => WOp::Check,
         "X" => WOp::Drop,
+        "U" => WOp::DropUnwinding,
         _ => return None,
     })
 }
@@ -733,6 +746,16 @@ impl WriterProp {
                     drop(w.take());
                     dropped = true;
                 }
+                WOp::DropUnwinding => {
+                    let wr = w.take();
+                    let r = std::panic::catch_unwind(std::panic::AssertUnwindSafe(move || {
+                        let _in_scope = wr;
+                        std::panic::panic_any(UnrelatedPanic);
+                    }));
+                    assert!(r.is_err());
+                    st.hit("fault.drop_while_unwinding");
+                    dropped = true;
+                }
             });
             written.extend_from_slice(&appended);
 
@@ -872,10 +895,10 @@ impl WriterProp {
                     }
                     prefix_checked = acc.len();
                     let must_equal = matches!(op, WOp::Flush) && matches!(reported, Some(Ok(())))
-                        || matches!(op, WOp::Drop);
+                        || matches!(op, WOp::Drop | WOp::DropUnwinding);
                     if must_equal && acc.len() != written.len() {
                         violation = viol(
-                            if matches!(op, WOp::Drop) {
+                            if matches!(op, WOp::Drop | WOp::DropUnwinding) {
                                 name("drop_equal")
                             } else {
                                 name("flush_equal")
